@@ -241,25 +241,32 @@ class SymText:
     Only equality with concrete strings is supported (what MatchingParameter.matches needs)."""
     __class__ = property(lambda s: str)
 
-    def __init__(s, kind, payload, upper=False, lower=False):
-        s.kind, s.payload, s.up, s.lo = kind, payload, upper, lower
+    def __init__(s, kind, payload, upper=False, lower=False, pad=0):
+        # pad: number of leading zeros in front of a (non-negative) decimal numeral ("0057")
+        s.kind, s.payload, s.up, s.lo, s.pad = kind, payload, upper, lower, pad
 
     def upper(s):
         if s.kind == "bytesrepr":
             raise Unsupported("case mapping of the text rendering of symbolic bytes")
-        return SymText(s.kind, s.payload, upper=True)
+        return SymText(s.kind, s.payload, upper=True, pad=s.pad)
 
     def lower(s):
-        return SymText(s.kind, s.payload, lower=True)
+        return SymText(s.kind, s.payload, lower=True, pad=s.pad)
 
     def _eq(s, o):
         import re
         if isinstance(o, SymText):
             if o.kind == s.kind == "dec":
+                if o.pad != s.pad:
+                    return False
                 return s.payload == o.payload
             raise Unsupported("comparison of two symbolic texts")
         if not isinstance(o, str):
             return False
+        if s.kind == "dec" and s.pad:
+            if not re.fullmatch("0{%d}(0|[1-9][0-9]*)" % s.pad, o):
+                return False
+            return s.payload == int(o)
         if s.kind == "dec":
             # str(v) == "123"  <=>  v == 123 for canonical numerals
             if not re.fullmatch(r"-?(0|[1-9][0-9]*)", o) or o == "-0":
